@@ -59,19 +59,18 @@ Theorem C05_continue_step :
 Proof. exact continue_step. Qed.
 Print Assumptions C05_continue_step.
 
-(* Converse: ANY bytes.  Whenever the (full-block) decoder reports success, either some parsed
-   sequence of the input has match offset 0 ([zero_off]: the class of finding F5), or the input
-   parses as a block, its sequences execute on the history ([spec_decode], the specification's
-   semantics WITHOUT the end-of-block restrictions) and the destination holds exactly that content.
-   [C05_success_sound_full_statement] (Proofs/DecConverseTop.v) quantifies over the fast loop too;
-   proved here: the safe loop (LZ4_FAST_DEC_LOOP off), every history placement. *)
-Theorem C05_success_sound_partial :
-  forall (pl : placement) (B hist : list Z) (srcm dictm : mem) (cap : Z) (m0 : mem),
+(* Converse: ANY bytes, LZ4_FAST_DEC_LOOP on or off, every history placement.  Whenever the
+   (full-block) decoder reports success, either some parsed sequence of the input has match
+   offset 0 ([zero_off]: exactly the class of finding F5), or the input parses as a block, its
+   sequences execute on the history ([spec_decode]: the specification's sequence semantics
+   WITHOUT the end-of-block restrictions) and the destination holds exactly that content. *)
+Theorem C05_success_sound :
+  forall (fastloop : bool) (pl : placement) (B hist : list Z) (srcm dictm : mem) (cap : Z) (m0 : mem),
     (forall a, 0 <= get srcm a < 256) -> bytes B -> src_at srcm 0 B -> hist_placed pl hist dictm m0 ->
-    sound_result (decompress_usingDict false false srcm (Z.of_nat (length B)) 0 cap pl dictm (Z.of_nat (length hist)) m0)
+    sound_result (decompress_usingDict fastloop false srcm (Z.of_nat (length B)) 0 cap pl dictm (Z.of_nat (length hist)) m0)
                  (lastn (Z.to_nat 65536) hist) B.
-Proof. exact success_sound_safe_loop. Qed.
-Print Assumptions C05_success_sound_partial.
+Proof. exact success_sound. Qed.
+Print Assumptions C05_success_sound.
 
 (* finding F5: the block 10 41 00 00 50 62 63 64 65 66 (one literal, then a match with
    offset 0) is rejected by the specification but decoded "successfully" (return 10) by the
@@ -107,3 +106,14 @@ Example C05_continue_nonvacuous :
   = (14, 19, 1033, 33, [97; 98; 97; 98; 97; 98; 97; 98; 97; 99; 100; 101; 102; 103;
                         97; 98; 97; 98; 97; 98; 97; 98; 97; 99; 100; 101; 102; 103; 49; 50; 51; 52; 53]).
 Proof. vm_compute. reflexivity. Qed.
+
+(* the F5 witness lies in the class the converse excludes; a block with an end-condition
+   violation (last match 4 bytes + 5 literals: 9 < 12) is accepted and covered by the converse *)
+Example C05_converse_nonvacuous :
+  zero_off (S (length f5_block)) f5_block = true
+  /\ (let B := [17; 97; 1; 0; 80; 98; 99; 100; 101; 102] in
+      strict_valid [] B = None /\ spec_decode [] B = Some [97; 97; 97; 97; 97; 97; 98; 99; 100; 101; 102]
+      /\ zero_off (S (length B)) B = false
+      /\ (let '(r, m, k) := decompress_safe true (mem_of_list 0 B) 10 30 empty in (r, load_list m 0 11))
+         = (11, [97; 97; 97; 97; 97; 97; 98; 99; 100; 101; 102])).
+Proof. vm_compute. repeat split; reflexivity. Qed.
